@@ -33,6 +33,7 @@ func checkC04(r *Report, p *Program) {
 	benignMeansNil(r, p, "R04.10")
 	canAdoptTable(r, p, "R04.11")
 	claimToleranceConverse(r, p, "R04.12")
+	matchIsSelectorOnly(r, p, "R04.13")
 }
 
 // listersListEverything: the controllers list their caches unfiltered and leave the
